@@ -8,7 +8,8 @@ CONFIG = {
                 "hash of the request text",
         "assumptions": ["requests the system rejects are not judged here (C07/C20 decide whether rejecting was right)"],
         "quick": {"checks": 30000, "shards": 8, "min_nontrivial": 2000},
-        "thorough": {"checks": 400000, "shards": 14, "min_nontrivial": 20000, "timeout": 3000},
+        "thorough": {"checks": 400000, "shards": 14, "min_nontrivial": 20000, "timeout": 3000,
+                     "fuzz": {"targets": ["FuzzC01"], "seconds": 120, "workers": 12}},
         "mandatory_labels": ["C01:nontrivial:majorityHeuristic", "C01:nontrivial:electreIII", "C01:nontrivial:weightedSum",
                              "C01:nontrivial:aspectEliminationHeuristic", "C01:nontrivial:satisfactionHeuristic"],
     },
@@ -260,7 +261,8 @@ CONFIG = {
         "assumptions": ["bodies <= 64 KiB, <= 6 criteria, <= 7 alternatives; resource exhaustion by size (e.g. series coefficient below 1e-3) is outside what is explored",
                         "a valid request answered 400 only because its result is not finite (json: unsupported value) is counted, not judged (C07 decides combinations)"],
         "quick": {"checks": 6000, "shards": 8, "min_nontrivial": 20000, "server": True, "death_is_violation": True, "maxstack": 67108864},
-        "thorough": {"checks": 120000, "shards": 14, "min_nontrivial": 400000, "server": True, "death_is_violation": True, "maxstack": 67108864, "timeout": 3000},
+        "thorough": {"checks": 120000, "shards": 14, "min_nontrivial": 400000, "server": True, "death_is_violation": True, "maxstack": 67108864, "timeout": 3000,
+                     "fuzz": {"targets": ["FuzzC20Bytes"], "seconds": 180, "workers": 12}},
         "mandatory_labels": ["C20:C20:valid:200", "C20:C20:constraint:400", "C20:C20:type:200", "C20:C20:type:400", "C20:C20:bytes:400",
                              "C20:C20server:constraint:400", "C20:C20server:valid:200", "C20:known-good-rechecked"],
     },
